@@ -38,7 +38,33 @@ type c12Result struct {
 	MaxBytes int      `json:"max_bytes"`
 }
 
+// nestedPayload is an adversarial record content: n bytes made of back-to-back well-formed
+// 8-byte journal chunks (type "full", one payload byte). A reader that lands anywhere on an
+// 8-byte boundary inside it - because it trusted a length field it had not verified - finds
+// records that were never written.
+var nestedUnit []byte
+
+func nestedPayload(n int) []byte {
+	if nestedUnit == nil {
+		var buf bytes.Buffer
+		w := journal.NewWriter(&buf)
+		ww, _ := w.Next()
+		ww.Write([]byte{0xA7})
+		w.Close()
+		nestedUnit = append([]byte(nil), buf.Bytes()[:8]...)
+	}
+	b := make([]byte, n)
+	for i := range b {
+		b[i] = nestedUnit[i%8]
+	}
+	return b
+}
+
+// recBytes: the content of record idx; a negative length -n asks for nestedPayload(n).
 func recBytes(idx, n int) []byte {
+	if n < 0 {
+		return nestedPayload(-n)
+	}
 	b := make([]byte, n)
 	for i := range b {
 		b[i] = byte(31*idx + 7*i + i>>8 + 1)
@@ -452,6 +478,11 @@ func init() {
 				// a record whose continuation chunk fills block 1 exactly (or up to the padding), so
 				// that the next record starts at the first byte of block 2
 				{[]int{65522, 5}, 0}, {[]int{65519, 5, 1}, 0b010}, {[]int{100, 65415, 9}, 0}}
+			// a record spanning blocks whose content is itself journal-framed, preceded by 0..7
+			// bytes so that every alignment of the inner chunks against the outer ones occurs
+			for shift := 0; shift < 8; shift++ {
+				near = append(near, ds{[]int{shift, -40000, 3}, 0})
+			}
 			if !quick {
 				for _, a := range c12Lens {
 					for _, b := range []int{0, 1, 7, 32761} {
